@@ -426,10 +426,6 @@ func c15RunConc(ctx *core.Ctx, in c15Input) {
 	returned, exited := stop(c)
 	hits, misses, _ := count(ctx, in, lin, obs)
 	cs := hx.Case{Kind: "conc", Input: hx.MustJSON(in), Facts: map[string]any{"maxttl": in.MaxTTL}}
-	total := 0
-	for _, th := range in.Threads {
-		total += len(th)
-	}
 	cs.Class = classOf(fmt.Sprintf("conc/g%d", len(in.Threads)), in.MaxTTL, lin)
 	cs.Trivial = hits == 0 || misses == 0
 	cs.Observed = map[string]any{"linearised": lin, "results": obs, "stop_returned": returned, "cleaner_exited": exited}
@@ -441,9 +437,12 @@ func c15RunConc(ctx *core.Ctx, in c15Input) {
 }
 
 func c15Run(ctx *core.Ctx, in c15Input) {
-	for _, o := range in.Ops {
-		if o.K < 0 || o.K >= nKeys {
-			panic("c15: key out of range")
+	all := append([][]c15Op{in.Ops}, in.Threads...)
+	for _, ops := range all {
+		for _, o := range ops {
+			if o.K < 0 || o.K >= nKeys {
+				panic("c15: key out of range")
+			}
 		}
 	}
 	switch in.Kind {
@@ -630,8 +629,8 @@ func c15Gen(ctx *core.Ctx) {
 					if maxttl > 0 && e2 > maxttl {
 						e2 = maxttl
 					}
-					x1 := e1 * secondNs        // first expiry (absolute, base 0)
-					x2 := gap + e2*secondNs    // second expiry
+					x1 := e1 * secondNs     // first expiry (absolute, base 0)
+					x2 := gap + e2*secondNs // second expiry
 					for _, target := range []int64{x1, x2} {
 						for off := int64(-1); off <= 1; off++ {
 							d := target + off - gap
